@@ -62,24 +62,27 @@ pub async fn observe(h: &Hist) -> J {
     let sub_attrs: Vec<Attribute> = meta.iter().filter(|(_, t)| *t == IndexType::SubString).map(|(a, _)| a.clone()).collect();
     let mut ents = Vec::new();
     let mut model_ids: BTreeSet<u64> = BTreeSet::new();
-    let mut sane = true;
     for e in all.iter().filter(|e| is_model(e.get_uuid())) {
         let id = kvs::entry_id(e);
         model_ids.insert(id);
         let mut a = Map::new();
         let mut c = Map::new();
         let mut syn = Map::new();
+        let mut k = Map::new();
         for at in ALPHA {
             if let Some(vs) = e.get_ava_set(at) {
                 let mut v: Vec<String> = vs.to_proto_string_clone_iter().collect();
                 v.sort();
-                // the TLA+ side takes the proto string as the equality key: make sure that is what the
-                // backend's own key function says for this syntax, else this is a tooling problem
-                let mut k = kvs::vs_idx_keys(vs, IndexType::Equality);
-                k.sort();
-                if k != v {
-                    sane = false;
-                    eprintln!("TOOL-ERROR eq keys of {at} are not its proto strings: {k:?} vs {v:?}");
+                // the index keys the backend's own key functions generate for this stored valueset
+                for (_, it) in meta.iter().filter(|(x, _)| x == at) {
+                    let ty = kvs::itype_str(*it);
+                    if ty == "ord" {
+                        continue;
+                    }
+                    let mut keys = kvs::vs_idx_keys(vs, *it);
+                    keys.sort();
+                    keys.dedup();
+                    k.insert(format!("{ty}:{at}"), json!(keys));
                 }
                 if sub_attrs.contains(at) {
                     c.insert(at.to_string(), json!(v.iter().map(|s| chars(s)).collect::<Vec<_>>()));
@@ -88,10 +91,7 @@ pub async fn observe(h: &Hist) -> J {
                 a.insert(at.to_string(), json!(v));
             }
         }
-        ents.push(json!({"id": id, "uuid": e.get_uuid().to_string(), "e": name_of(e.get_uuid()), "live": liveness(e), "a": a, "c": c, "syn": syn}));
-    }
-    if !sane {
-        std::process::exit(2);
+        ents.push(json!({"id": id, "uuid": e.get_uuid().to_string(), "e": name_of(e.get_uuid()), "live": liveness(e), "a": a, "c": c, "syn": syn, "k": k}));
     }
     // --- raw index tables of the alphabet attributes, rows restricted to the model's entry ids
     let tables: BTreeSet<String> = be.list_indexes().expect("list_indexes").into_iter().collect();
@@ -223,7 +223,8 @@ pub fn random_op(rng: &mut Rng, shadow: &BTreeMap<u64, String>, restore_pct: u64
         36..=41 => json!({"op":"display","n":pick_where(rng, "live"),"v":format!("D{}", rng.below(5))}),
         42..=48 => json!({"op":"mail","n":pick_where(rng, "live"),"v":format!("{}@m.example.com", rng.pick(NAMES))}),
         49..=56 => json!({"op":"member","g":rng.range(6,NE),"m":pick_where(rng, "live"),"add":rng.chance(2,3)}),
-        57..=60 => json!({"op":"cred","n":rng.range(1,5),"k":rng.below(3)}),
+        57..=58 => json!({"op":"cred","n":rng.range(1,5),"k":rng.below(3)}),
+        59..=60 => json!({"op":"purgeattr","n":pick_where(rng, "live"),"attr":*rng.pick(&["mail", "gidnumber", "member"])}),
         61..=63 => json!({"op":"session","n":rng.range(1,5),"k":rng.below(3)}),
         64..=73 => json!({"op":"recycle","n":pick_where(rng, "live")}),
         74..=81 => json!({"op":"revive","n":pick_where(rng, "recycled")}),
@@ -313,6 +314,10 @@ pub async fn apply(h: &mut Hist, op: &J, tr: &mut Tracer) -> String {
             let sess = Value::Session(sid, Session { label: format!("s{k}"), state, issued_at: odt, issued_by: IdentityId::User(uuid_e(n)),
                 cred_id: Uuid::from_u128(0xc0de), scope: SessionScope::ReadWrite, type_: AuthType::Password, ext_metadata: Default::default() });
             w.internal_modify_uuid(uuid_e(n), &ModifyList::new_list(vec![Modify::Present(Attribute::UserAuthTokenSession, sess)]))
+        }
+        "purgeattr" => {
+            let at = match op["attr"].as_str().unwrap_or("mail") { "gidnumber" => Attribute::GidNumber, "member" => Attribute::Member, _ => Attribute::Mail };
+            w.internal_modify_uuid(uuid_e(n), &ModifyList::new_purge(at))
         }
         "recycle" => w.internal_delete_uuid(uuid_e(n)),
         "revive" => kvs::revive_uuid(&mut w, uuid_e(n)),
